@@ -31,8 +31,42 @@ Fixpoint value_eqb (a b : value) {struct a} : bool :=
   | _, _ => false
   end.
 
+(* THE PROPERTY's reading of an override block: like the model's [merge], except that an entry of a custom-field map
+   the block sets to the EMPTY value does not count as set - the base's value stays (the code replaces it: C13-K1) *)
+Fixpoint spec_merge (fuel : nat) (dst src : value) : value :=
+  match fuel with
+  | O => dst
+  | S n =>
+      match dst, src with
+      | VStruct fd, VStruct fs =>
+          VStruct (map (fun '(k, d) => match vlookup k fs with Some s => (k, spec_merge n d s) | None => (k, d) end) fd)
+      | VMap md, VMap ms =>
+          VMap (fold_left (fun acc '(k, s) =>
+                             match vlookup k acc with
+                             | Some d => match d, s with
+                                         | VStruct _, VStruct _ | VPtr _, VPtr _ | VMap _, VMap _ => assoc_set k (spec_merge n d s) acc
+                                         | _, _ => if is_empty_value s then acc else assoc_set k s acc
+                                         end
+                             | None => assoc_set k s acc
+                             end) ms md)
+      | VPtr (Some d), VPtr (Some s) => VPtr (Some (spec_merge n d s))
+      | VPtr None, VPtr (Some s) => VPtr (Some s)
+      | _, _ => if is_empty_value src then dst else src
+      end
+  end.
+
+Definition spec_get (base : value) (overrides : list (str * value)) (format : str) : value :=
+  match vlookup format overrides with
+  | None => base
+  | Some ov =>
+      match spec_merge 40 base ov with
+      | VStruct fs => VStruct (map (fun '(k, v) => if seqb k (B "Contents") then (k, filter_contents format v) else (k, v)) fs)
+      | v => v
+      end
+  end.
+
 Inductive c13_clause :=
-  | OEffective (f : str)        (* Get(f) differs from the base merged with f's block alone *)
+  | OEffective (f : str)        (* Get(f) differs from the base with exactly the non-empty settings of f's block replaced *)
   | OUnknownAccepted (f : str). (* a block for an unregistered format passed validation *)
 
 Record c13_case := {
@@ -43,6 +77,6 @@ Record c13_case := {
   k_registered : list str }.
 
 Definition check_C13 (c : c13_case) : list c13_clause :=
-  flat_map (fun '(f, v) => if value_eqb v (config_get (k_base c) (k_blocks c) f) then [] else [OEffective f]) (k_gets c)
+  flat_map (fun '(f, v) => if value_eqb v (spec_get (k_base c) (k_blocks c) f) then [] else [OEffective f]) (k_gets c)
   ++ flat_map (fun '(f, _) => if negb (existsb (seqb f) (k_registered c)) && k_validate_ok c then [OUnknownAccepted f] else [])
        (k_blocks c).
